@@ -157,8 +157,13 @@ pub fn download(server: &mut Server, cfg: &DlCfg, ids: &mut Ids) -> (Vec<Finding
         let (mid, tok) = ids.next(tkl_for(ids));
         q.mid = mid;
         q.token = tok;
-        // (really beyond the end: a block inside the body would simply start a transfer there)
-        let num = num.max((cfg.body.len() / szx_size(szx)) as u32 + 1);
+        // (really beyond the end: a block inside the body would simply start a transfer there, which is
+        // outside C08's clients.  "Beyond" with a margin of two: when the budget forces a smaller block the
+        // handler re-expresses the number by dividing the offset by the UNROUNDED size it could afford
+        // and then rounds the size down to a power of two, so the block it looks up can start as early
+        // as half the requested offset - an observation, not a finding: no property speaks of first
+        // requests for a block other than 0)
+        let num = num.max((2 * cfg.body.len() / szx_size(szx)) as u32 + 3);
         q.block2 = Some((num, false, szx));
         let before = own_calls.get();
         let ex = server.exchange(&q.bytes(), cfg.ep, &mut app);
@@ -167,6 +172,11 @@ pub fn download(server: &mut Server, cfg: &DlCfg, ids: &mut Ids) -> (Vec<Finding
         }
         if let Some(Step::Panic(p)) = &ex.intercept_response {
             bail!(Scope::Transfer, &p.sig(), "{}", p.text());
+        }
+        if ex.reply_code().map(|c| c >> 5) == Some(2) {
+            // not refused after all: the rest of this transfer would not be one of C08's
+            st.fragmented = false;
+            return (out, st);
         }
         // (how the refusal is rendered is C11's business; here it only has to leave nothing behind)
         own_calls.set(before);
@@ -747,14 +757,16 @@ fn strategy_name(s: &Strategy) -> &'static str {
 fn dl_one(rep: &mut Report, budget: usize, cfg: &DlCfg, ids: &mut Ids, scope: Scope) {
     rep.eval();
     let witness = format!(
-        "download: budget {} body {}B reply-options {:?} token {}B type {} strategy {:?} path {:?}",
+        "download: budget {} body {}B reply-options {:?} token {}B type {} strategy {:?} path {:?}{}{}",
         budget,
         cfg.body.len(),
         cfg.reply_opts.iter().map(|o| (o.0, o.1.len())).collect::<Vec<_>>(),
         cfg.tkl,
         cfg.typ,
         cfg.strategy,
-        cfg.path
+        cfg.path,
+        cfg.stale_resume_first.map(|x| format!(" after a resume attempt Block2({},_,szx {})", x.0, x.1)).unwrap_or_default(),
+        if cfg.vary_tkl { " token length varies" } else { "" }
     );
     set_case_str(&witness);
     let mut server = Server::new(budget, LONG);
